@@ -46,5 +46,10 @@ func SignPayload(payload []byte, signer Signer) (string, error) {
 		return "", err
 	}
 
+	// a compact JWS with an empty payload segment is refused when it is read back
+	if len(payload) == 0 {
+		return "", errors.New("payload is required")
+	}
+
 	return jwsSignature.SerializeCompact(false)
 }
